@@ -266,7 +266,9 @@ def r11_4(ctx) -> None:
         raise AnalysisError("BaseKey.import_key / validate_dict_key / __init__ vanished")
     cfg = cfg_of(ik)
     vp = ik.pos_params[1]
-    vnodes = [cfg.node_of(s.node) for s in eng.cg.calls_in(ik) if vd in s.callees and isinstance(s.node, ast.Call) and s.node.args and norm(s.node.args[0]) == vp]
+    from .c05 import _resolve_local
+    vnodes = [cfg.node_of(s.node) for s in eng.cg.calls_in(ik) if vd in s.callees and isinstance(s.node, ast.Call) and s.node.args
+              and (norm(s.node.args[0]) == vp or _resolve_local(eng, ik, s.node.args[0]) == vp)]
     vnodes = [v for v in vnodes if v is not None]
     imps = [s for s in eng.cg.calls_in(ik) if isinstance(s.node, ast.Call) and s.attr == "import_from_dict"]
     ok = bool(vnodes) and bool(imps) and all(cfg.must_pass(cfg.entry, cfg.node_of(s.node), vnodes) for s in imps)
